@@ -447,6 +447,34 @@ func checkAll(t failer, in []byte, cks []chunking) (ref outcome, maxReads int) {
 			fail("styling.Scan() with reader %v yields %q (err %v); the decoder's data tokens (one piece) are %q", ck, data, serr, want)
 		}
 	}
+	// the readers applications really hand over: they know their length and
+	// implement more than io.Reader (WriterTo, ByteReader, ...)
+	for _, sr := range []struct {
+		name string
+		r    io.Reader
+	}{
+		{"strings.Reader", strings.NewReader(string(in))},
+		{"bytes.Reader", bytes.NewReader(in)},
+		{"bytes.Buffer", bytes.NewBuffer(append([]byte(nil), in...))},
+		{"bufio.Reader(16)", bufio.NewReaderSize(bytes.NewReader(in), 16)},
+	} {
+		if len(cks) == 0 {
+			break
+		}
+		out := decode(sr.r, len(in))
+		if out.breach != "" {
+			fail("reader %s: %s\ntokens so far %s", sr.name, out.breach, tokList(out.toks))
+		}
+		at, same := sameToks(ref.toks, out.toks)
+		if !same || fmt.Sprint(ref.err) != fmt.Sprint(out.err) {
+			if atScannerLimit(in, ref, out) || atScannerLimit(in, out, ref) {
+				ev.Class("scanner-limit-boundary-tolerated")
+				continue
+			}
+			fail("result depends on the kind of reader (first difference at token %d)\nreader %v: err=%v\n  %s\nreader %s: err=%v\n  %s",
+				at, cks[0], ref.err, tokList(ref.toks), sr.name, out.err, tokList(out.toks))
+		}
+	}
 	return ref, maxReads
 }
 
@@ -582,10 +610,35 @@ func genInput(t *rapid.T) ([]byte, string) {
 	if rapid.IntRange(0, 7).Draw(t, "docprefix") == 0 {
 		prefix = []byte(pick(t, []string{"\ufeff", "\ufeff", "\u200b", "\ufeff\ufeff", "\u2060"}, "prefix"))
 	}
+	snap := rapid.IntRange(0, 9).Draw(t, "snap") == 0
 	if rapid.IntRange(0, 1).Draw(t, "grammar") == 1 {
-		return append(prefix, genDoc(t)...), "gen-grammar"
+		in := append(prefix, genDoc(t)...)
+		if snap {
+			return snapLength(t, in), "gen-grammar-snapped-length"
+		}
+		return in, "gen-grammar"
 	}
-	return append(prefix, genBytes(t)...), "gen-alphabet"
+	in := append(prefix, genBytes(t)...)
+	if snap {
+		return snapLength(t, in), "gen-alphabet-snapped-length"
+	}
+	return in, "gen-alphabet"
+}
+
+// snapLength pads the input (with plain letters, so that its last line stays
+// open) to a length at which buffers are typically sized: a multiple of 64, a
+// power of two, or one byte either side.
+func snapLength(t *rapid.T, in []byte) []byte {
+	unit := rapid.SampledFrom([]int{64, 64, 128, 256, 512, 1024, 4096}).Draw(t, "snapUnit")
+	n := (len(in)/unit + 1) * unit
+	if len(in)%unit == 0 && len(in) > 0 {
+		n = len(in)
+	}
+	n += rapid.SampledFrom([]int{0, 0, 0, -1, 1}).Draw(t, "snapOff")
+	for len(in) < n {
+		in = append(in, "abcdefghij"[len(in)%10])
+	}
+	return in
 }
 
 func interesting(b byte) bool {
